@@ -23,7 +23,7 @@ func genResponseFamily(c *Ctx, filter func(string) bool) {
 		var sb strings.Builder
 		sb.WriteString("openapi: 3.0.3\ninfo:\n  title: response family\n  version: 0.0.1\npaths:\n")
 		hdr := func(k int, ind int) string {
-			s := fmt.Sprintf("x-h-%d:\n", k)
+			s := fmt.Sprintf("x-h%c:\n", 'a'+k)
 			if (i+k)%2 == 0 {
 				s += "  required: true\n"
 			}
@@ -50,15 +50,17 @@ func genResponseFamily(c *Ctx, filter func(string) bool) {
 			sb.WriteString("        '200':\n          description: raw\n" + rawBody + "        '204':\n          description: nothing\n")
 		}
 		// op 2 + op 3: shared component responses / alias chains
-		sb.WriteString("  /b:\n    post:\n      responses:\n        '200':\n          $ref: '#/components/responses/ItemOK'\n        '202':\n          $ref: '#/components/responses/ItemAlias2'\n")
+		sb.WriteString("  /b:\n    post:\n      responses:\n        '200':\n          $ref: '#/components/responses/ItemOK'\n        '202':\n          $ref: '#/components/responses/Accepted'\n")
 		if i%2 == 0 {
 			sb.WriteString("        default:\n          $ref: '#/components/responses/Problem'\n")
 		}
-		sb.WriteString("  /c/{id}:\n    get:\n      parameters:\n        - name: id\n          in: path\n          required: true\n          schema:\n            type: string\n      responses:\n        '200':\n          $ref: '#/components/responses/ItemOK'\n        '410':\n          description: gone\n          headers:\n" + hdr(4, 12))
+		// a shared component response reached through an alias chain, on a path with a camelCase variable
+		sb.WriteString("  /c/{itemId}:\n    get:\n      parameters:\n        - name: itemId\n          in: path\n          required: true\n          schema:\n            type: string\n      responses:\n        '200':\n          $ref: '#/components/responses/ItemAlias2'\n        '410':\n          description: gone\n          headers:\n" + hdr(4, 12))
 		sb.WriteString("components:\n  schemas:\n    Item:\n      type: object\n      required:\n        - id\n      properties:\n        id:\n          type: integer\n          format: int64\n        label:\n          type: string\n          nullable: true\n    Err:\n      type: object\n      required:\n        - message\n      properties:\n        message:\n          type: string\n")
 		sb.WriteString("  responses:\n    ItemOK:\n      description: item\n      headers:\n" + hdr(5, 8) + jsonBody("Item", 6))
 		sb.WriteString("    ItemAlias:\n      $ref: '#/components/responses/ItemOK'\n    ItemAlias2:\n      $ref: '#/components/responses/ItemAlias'\n")
 		sb.WriteString("    Problem:\n      description: problem\n" + jsonBody("Err", 6))
+		sb.WriteString("    Accepted:\n      description: accepted\n      headers:\n" + hdr(6, 8))
 		c.GenPackage(name, "B", []byte(sb.String()), "", GenFlags{Client: true})
 	}
 	// specs the generator has to REJECT: a shared component response used both as
